@@ -182,6 +182,16 @@ Theorem dsa_verify_rejects_out_of_range :
     dsa_verify key r s data w = false.
 Proof. exact dsa_verify_range. Qed.
 
+(* FULL statement without the group hypothesis is false -- and Python_DSAKey.generate() produces
+   exactly such parameters (q does not divide p-1): finding 3, replayed on the code by the harness *)
+Theorem dsa_sign_verifies_without_group_hypothesis_refuted :
+  (dk_p bad_dsa - 1) mod dk_q bad_dsa <> 0 /\
+  exists data k kinv w,
+    0 <= k /\ (k * kinv) mod dk_q bad_dsa = 1 /\
+    let '(r, s) := dsa_sign bad_dsa data k kinv in
+    (s * w) mod dk_q bad_dsa = 1 /\ 0 < r /\ 0 < s /\ dsa_verify bad_dsa r s data w = false.
+Proof. exact dsa_group_hypothesis_needed. Qed.
+
 Example dsa_hypotheses_instance :
   dk_g toy_dsa ^ dk_q toy_dsa mod dk_p toy_dsa = 1 /\
   dk_y toy_dsa = powmod (dk_g toy_dsa) (dk_x toy_dsa) (dk_p toy_dsa).
